@@ -37,17 +37,22 @@ def check_closest(ctx, fam, obj_desc, qp, res, on_obj_sqd, samples_sqd, best_sqd
 def fam_lines(ctx, rng):
     d3 = rng.random() < 0.5
     kind = rng.choice(['seg', 'ray'])
+    far = rng.random() < 0.4            # the object somewhere in a site model (coordinates to 1e4), the query a few millimetres .. centimetres off it
+    ext = 50 if not far else 9000
     if d3:
-        L = (Ray3D if kind == 'ray' else LineSegment3D)(P3(G.rpt3(rng, 50)), V3(G.rvec3(rng, 30)))
+        L = (Ray3D if kind == 'ray' else LineSegment3D)(P3(G.rpt3(rng, ext)), V3(G.rvec3(rng, 30)))
     else:
-        L = (Ray2D if kind == 'ray' else LineSegment2D)(P2(G.rpt2(rng, 50)), V2(G.rvec2(rng, 30)))
+        L = (Ray2D if kind == 'ray' else LineSegment2D)(P2(G.rpt2(rng, ext)), V2(G.rvec2(rng, 30)))
     p, v = X.fpt(L.p), X.fpt(L.v)
     mode = rng.choice(['random', 'on', 'beyond_start', 'beyond_end'])
     t = {'random': rng.uniform(-0.5, 1.5), 'on': rng.uniform(0, 1), 'beyond_start': rng.uniform(-3, -0.1),
          'beyond_end': rng.uniform(1.1, 4)}[mode]
     base = [float(p[i]) + t * float(v[i]) for i in range(len(p))]
     off = (G.rvec3(rng, 20) if d3 else G.rvec2(rng, 20)) if mode != 'on' else tuple(0.0 for _ in p)
-    qf = tuple(G.dy(base[i] + off[i]) for i in range(len(p)))
+    if far and mode != 'on':
+        mag = rng.choice([0.001, 0.004, 0.02])
+        off = tuple(rng.uniform(-mag, mag) for _ in p)
+    qf = tuple(G.dy(base[i] + off[i], 20 if far else 10) for i in range(len(p)))
     if mode == 'on':
         # exactly on the object: dyadic parameter
         tt = Fraction(rng.randint(0, 16), 16)
@@ -74,7 +79,7 @@ def fam_lines(ctx, rng):
     ctx.count(fam, key=(region, mode), sample={'line': repr(L.to_dict()), 'query': qf}, nontrivial=mode != 'on')
     desc = {'line': repr(L.to_dict())}
     check_closest(ctx, fam, desc, qp, res, on_obj, samples, best, sc, region)
-    if not X.close(dist * dist, X.sqd(qp, res), 1e-7, 1e-12) and abs(dist - math.sqrt(float(X.sqd(qp, res)))) > 1e-9 * sc:
+    if not X.close(dist * dist, X.sqd(qp, res), 1e-7, 1e-12) and abs(dist - math.sqrt(float(X.sqd(qp, res)))) > 1e-10 * sc:
         ctx.violation(fam + ':distance_mismatch', 'distance_to_point %r differs from |q - closest_point| %r' % (
             dist, math.sqrt(float(X.sqd(qp, res)))), dict(desc, query=qf))
     if dist < 0:
